@@ -24,6 +24,16 @@ the database host takes the (5432, tcp) entry of the port map (`portMine`), and 
 extra input of backup / restore / tick (the big STOR frame is refused by a link: at the sender's own link the sender
 knows, further down it does not); the DataManipulationBot's stage machine with its two Bernoulli trials as inputs.
 
+Round 3 (C17 group): the contents of `downloads/` are explicit (the `downloads` folder, `downloads/database.db`, planted /
+corrupted / repaired / deleted leftovers) and `restoreBackup` follows the repaired `restore_backup` (finding F-C17-2): a
+leftover `downloads/database.db` is removed BEFORE the backup is requested, so the copy that is put into place is the one
+that arrived in this very call.  Added: re-installing the database service at run time (`Server.reinstall`: refused
+without a configuration while installed; raises while a live `database.db` exists; otherwise a NEW instance - empty
+connection table, default session limit and durations, configured password, new uuid hence no backup of its own - that
+takes the (5432, tcp) entry even from a co-located client), re-installing the FTP client, its `restart` / `fix` / `scan`
+requests (own restart and fix countdowns, ticking in the order of `node.services`), malformed payloads (`Payload.junk`:
+`receive` answers them 500), operations on the co-located client.
+
 Connection ids are the issue counter of the server (`uuid4()` in the code; the rig renames them in issue order).
 Python raising does not occur on the modelled paths; refused operations return explicit outcomes.
 Core Lean only.
@@ -61,6 +71,11 @@ deriving DecidableEq, Repr
 inductive Sql | select | delete | encrypt | insert | pgstat | other
 deriving DecidableEq, Repr
 
+/-- payloads `DatabaseService.receive` does not recognise: not a dict; a dict without a (truthy) `type`; a dict whose
+`type` is none of connect_request / disconnect / sql -/
+inductive Junk | notDict | noType | unknownType
+deriving DecidableEq, Repr
+
 /-- One entry of `IOSoftware._connections`: the id and the originating address (= client index). -/
 structure Conn where
   id : Nat
@@ -81,7 +96,8 @@ structure Server where
   maxSessions : Nat := 100
   /-- live `database/database.db`; `none` = only a deleted copy exists -/
   file : Option FHealth := some .good
-  /-- `downloads/database.db` on the database host (written by the first restore, never overwritten) -/
+  /-- live `downloads/database.db` on the database host: written by a restore (which removes a leftover first), or planted /
+  damaged / deleted by file-system operations -/
   downloads : Option FHealth := none
   /-- the FTP client on the database host holds a `"server_connection"` entry (set by the first successful PORT, never removed) -/
   ftpConn : Bool := false
@@ -97,6 +113,18 @@ structure Server where
   ftpc : Option SvcState := some .running
   /-- the `database` folder exists -/
   folder : Bool := true
+  /-- the `downloads` folder exists (created by the first file stored under it) -/
+  dlFolder : Bool := false
+  /-- the (5432, tcp) entry of the port map points at a co-located database client -/
+  portCo : Bool := false
+  /-- operating state of the co-located database client (installed CLOSED; run by the host's start-up actions or `run()`) -/
+  coApp : AppState := .closed
+  /-- FTP client: restart countdown (while RESTARTING) and fix countdown (`some n` = health FIXING, `none` = GOOD) -/
+  ftpcRestartCd : Nat := 0
+  ftpcFix : Option Nat := none
+  /-- order of `node.services`: true = the FTP client's `apply_timestep` runs BEFORE the database service's (the case after
+  the database service was re-installed; initially the service is first because it installs the FTP client itself) -/
+  ftpcFirst : Bool := false
 deriving DecidableEq, Repr
 
 structure Backup where
@@ -232,6 +260,7 @@ inductive Payload
   | connect (pw : Option Nat)
   | sql (connId : Option Nat) (q : Sql)     -- `none` = an id the server never issued
   | disconnect (connId : Option Nat)
+  | junk (k : Junk)                          -- anything `receive` does not recognise
 deriving DecidableEq, Repr
 
 /-- `DatabaseService.receive` for a payload from client `src`. Answer = status code sent back (`none`: nothing sent)
@@ -255,60 +284,122 @@ def Server.receive (s : Server) (src : Nat) : Payload → Server × Option (Nat 
           ({ s with conns := s.conns.filter (fun c => !(c.id == id)) }, some (500, none))
         else (s, some (500, none))
       | none => (s, some (500, none))
+  | .junk _ =>
+    -- no branch of the dispatcher matches: the default result `{"status_code": 500, "data": []}` is sent back
+    if !s.canAct then (s, none) else (s, some (500, none))
+
+/-! ### the payload as `receive` sees it, key by key (vocabulary of the translated dispatcher, Gen/DatabaseTr.lean) -/
+
+/-- `payload["type"]` when it is truthy -/
+inductive PType | connectRequest | disconnect | sql | other
+deriving DecidableEq, Repr
+
+/-- What can arrive at `DatabaseService.receive`, as far as the dispatcher looks at it. -/
+structure Raw where
+  isDict : Bool := true
+  /-- `payload.get("type")`: `none` = key absent or value falsy -/
+  type : Option PType := none
+  /-- key `"connection_id"`: `none` = absent, `some none` = present but not an id the server ever issued (also `None`),
+  `some (some k)` = the id issued k-th -/
+  connId : Option (Option Nat) := none
+  /-- `payload.get("password")` -/
+  password : Option Nat := none
+  /-- key `"sql"`: `none` = absent -/
+  sql : Option Sql := none
+  /-- key `"uuid"` present -/
+  uuid : Bool := false
+deriving DecidableEq, Repr
+
+/-- what a call of `receive` did: returned `value` after passing `sent` to `self.send` (`none`: nothing was sent), or raised
+(`KeyError` on a missing key) -/
+inductive RecvOut
+  | ret (sent : Option (Nat × Option Nat)) (value : Bool)
+  | raised
+deriving DecidableEq, Repr
+
+/-- `self.connections[connection_id]["ip_address"]`: the originating address recorded for an id -/
+def Server.ownerOf (s : Server) (cid : Option Nat) : Option Nat :=
+  cid.bind (fun i => (s.conns.find? (fun c => c.id == i)).map (·.owner))
+
+/-- the well-formed payloads of the model, key by key -/
+def Payload.raw : Payload → Raw
+  | .connect pw => { type := some .connectRequest, password := pw }
+  | .sql cid q => { type := some .sql, connId := some cid, sql := some q, uuid := true }
+  | .disconnect cid => { type := some .disconnect, connId := some cid }
+  | .junk .notDict => { isDict := false }
+  | .junk .noType => { connId := some none, sql := some .select }
+  | .junk .unknownType => { type := some .other }
 
 /-! ### backup and restore (database_service.py + the FTP pair) -/
 
 def Backup.serves (b : Backup) : Bool := b.node.isOn && b.ftps == .running
 
-/-- `backup_database`. `pathReq`: server → backup-host direction open (both NICs up, not blocked). `big`: no link on the
-way refuses the STOR frame that carries the file for lack of capacity. -/
+/-! #### the two FTP transfers (`FTPClient.send_file` / `FTPClient.request_file` as far as the database service uses them)
+
+`pathReq`: server → backup-host direction open (both NICs up, not blocked). `big`: no link on the way refuses the STOR frame
+that carries the file for lack of capacity. `pathResp`: backup-host → server direction open (for the STOR frame that carries
+the file: and no link further down refuses it). `sendOk`: the backup host's own link takes that frame (otherwise the FTP
+server's `send` fails and RETR is answered not-OK). -/
+
+/-- `ftp_client.send_file('database/database.db' -> '<uuid>/database.db')` -/
+def ftpSendFile (s : Server) (b : Backup) (pathReq big : Bool) : Server × Backup × Bool :=
+  match s.file with
+  | none => (s, b, false)
+  | some fh =>
+    -- `_connect_to_server` needs the FTP client to be able to act; so does `_send_data` (through `IOSoftware.send`)
+    let portOk := s.ftpcAct && pathReq && b.serves
+    let s1 := { s with ftpConn := s.ftpConn || portOk }
+    if !s1.ftpConn then (s1, b, false)
+    else if !portOk then (s1, b, false)
+    else if !big then (s1, b, false)
+    else match b.stored with
+      | some _ => (s1, b, false)          -- `create_file` raises on the existing name; `_store_data` answers False
+      | none => (s1, { b with stored := some fh }, true)
+
+/-- `ftp_client.request_file('<uuid>/database.db' -> 'downloads/database.db')`: RETR goes straight to the session manager (it
+is sent whether or not the FTP client can act) and is reported OK as soon as the backup host has SENT the file; the
+incoming STOR is stored under downloads/ only if it arrives, the FTP client can act, and no file of that name is already
+there (`create_file` raises on an existing name, swallowed by `_store_data`). -/
+def ftpRequestFile (s : Server) (b : Backup) (pathReq pathResp sendOk : Bool) : Server × Bool :=
+  let portOk := s.ftpcAct && pathReq && b.serves
+  let s1 := { s with ftpConn := s.ftpConn || portOk }
+  if !s1.ftpConn then (s1, false)
+  else if !(pathReq && b.serves) then (s1, false)
+  else match b.stored with
+    | none => (s1, false)
+    | some bh =>
+      if !sendOk then (s1, false)
+      else if pathResp && s1.ftpcAct then
+        match s1.downloads with
+        | some _ => (s1, true)
+        | none => ({ s1 with downloads := some bh, dlFolder := true }, true)
+      else (s1, true)
+
+/-- `backup_database`: the guards, then the transfer. -/
 def backupDatabase (s : Server) (b : Backup) (pathReq : Bool) (big : Bool := true) : Server × Backup × Bool :=
   if !s.canAct then (s, b, false)
   else if !s.backupConfigured then (s, b, false)
   else if s.ftpc.isNone then (s, b, false)
-  else match s.file with
-    | none => (s, b, false)
-    | some fh =>
-      -- `_connect_to_server` needs the FTP client to be able to act; so does `_send_data` (through `IOSoftware.send`)
-      let portOk := s.ftpcAct && pathReq && b.serves
-      let s1 := { s with ftpConn := s.ftpConn || portOk }
-      if !s1.ftpConn then (s1, b, false)
-      else if !portOk then (s1, b, false)
-      else if !big then (s1, b, false)
-      else match b.stored with
-        | some _ => (s1, b, false)          -- `create_file` raises on the existing name; `_store_data` answers False
-        | none => (s1, { b with stored := some fh }, true)
+  else if s.file.isNone then (s, b, false)
+  else ftpSendFile s b pathReq big
 
-/-- `restore_backup`. `pathResp`: backup-host → server direction open (for the STOR frame that carries the file: and no
-link further down refuses it). `sendOk`: the backup host's own link takes that frame (otherwise the FTP server's `send`
-fails and RETR is answered not-OK). -/
+/-- `restore_backup` (as repaired, F-C17-2): the guards; a leftover `downloads/database.db` is removed BEFORE the backup is
+requested, so what is copied into place is what arrived in THIS call; the transfer; the (F-33) check that a file is present
+under downloads/ before the live file is deleted and the download copied over it. -/
 def restoreBackup (s : Server) (b : Backup) (pathReq pathResp : Bool) (sendOk : Bool := true) : Server × Bool :=
   if !s.canAct then (s, false)
   else if !s.backupConfigured then (s, false)
   else if s.ftpc.isNone then (s, false)
   else
-    let portOk := s.ftpcAct && pathReq && b.serves
-    let s1 := { s with ftpConn := s.ftpConn || portOk }
-    if !s1.ftpConn then (s1, false)
-    -- RETR goes straight to the session manager: it is sent whether or not the FTP client can act
-    else if !(pathReq && b.serves) then (s1, false)
-    else match b.stored with
-      | none => (s1, false)
-      | some bh =>
-        if !sendOk then (s1, false)
-        else
-        -- the server answers RETR with a STOR; it is stored under downloads/ (by the FTP client, if it can act) unless a
-        -- file of that name is already there
-        let s2 := if pathResp && s1.ftpcAct then { s1 with downloads := match s1.downloads with | some d => some d | none => some bh } else s1
-        -- RETR is reported OK whether or not the STOR arrived; the (repaired) code then checks that a file is present
-        -- under downloads/ before it deletes the live file and copies the download over it
-        match s2.downloads with
-        | some d => ({ s2 with file := some d, folder := true, health := .good }, true)
-        | none => (s2, false)
+    let r := ftpRequestFile { s with downloads := none } b pathReq pathResp sendOk
+    if !r.2 then (r.1, false)
+    else match r.1.downloads with
+      | none => (r.1, false)
+      | some d => ({ r.1 with file := some d, folder := true, health := .good }, true)
 
 /-! ### requests on the database service (validators of service.py, then the method) -/
 
-inductive SvcReq | stop | start | pause | resume | restart | disable | enable | fix | compromise
+inductive SvcReq | stop | start | pause | resume | restart | disable | enable | fix | compromise | scan
 deriving DecidableEq, Repr
 
 /-- `['service','database-service',<req>]` on the server node: `none` = rejected by a validator (node not ON or wrong state),
@@ -330,18 +421,21 @@ def Server.request (s : Server) (r : SvcReq) : Server × Option Bool :=
       else (s, some false)
     else (s, none)
   | .compromise => ({ s with health := .compromised }, some true)
+  -- `scan` copies the actual health into the visible one (not modelled): validator RUNNING, nothing else changes
+  | .scan => if s.op = .running then (s, some true) else (s, none)
 
 /-! ### power and file damage on the database host -/
 
 /-- start-up actions on the database host: `start()` of every installed service -/
 def Server.startUp (s : Server) : Server :=
   let s := if s.installed then let x := svcStart true s.op s.health; { s with op := x.1, health := x.2.1 } else s
-  { s with ftpc := s.ftpc.map (fun f => (svcStart true f .good).1) }
+  { s with ftpc := s.ftpc.map (fun f => (svcStart true f .good).1),
+           coApp := if s.coClient && s.coApp == .closed then .running else s.coApp }
 
 /-- shut-down actions: `stop()` of every installed service -/
 def Server.shutDown (s : Server) : Server :=
   let s := if s.installed then { s with op := (svcStop s.op).1 } else s
-  { s with ftpc := s.ftpc.map (fun f => (svcStop f).1) }
+  { s with ftpc := s.ftpc.map (fun f => (svcStop f).1), coApp := .closed }
 
 /-- `srv.power_on()`: start-up actions run at once when the start-up duration is 0. -/
 def Server.powerOn (s : Server) : Server :=
@@ -368,13 +462,19 @@ def Server.folderDelete (s : Server) : Server × Bool :=
 inductive Admin
   | ftpc (r : SvcReq)          -- `['service','ftp-client',r]`
   | ftpcUninstall
+  | ftpcInstall (cfg : Bool)    -- `software_manager.install(FTPClient[, config])`
   | svcUninstall                -- `software_manager.uninstall('database-service')`
   | bkcfg (on : Bool)           -- `configure_backup(ip)` / `backup_server_ip = None`
   | coInstall | coUninstall     -- a database client on the database host
+  | coRun                       -- `run()` of that client
 deriving DecidableEq, Repr
 
-/-- lifecycle of the FTP client through its request manager (validators of service.py); restart is not modelled for
-it (`none`), nor are fix / compromise -/
+/-- defaults of a freshly installed FTP client (`Service.restart_duration`, `Software.ConfigSchema.fixing_duration`) -/
+def ftpcRestartDur : Nat := 5
+def ftpcFixDur : Nat := 2
+
+/-- lifecycle of the FTP client through its request manager (validators of service.py); restart / fix / scan are
+handled in `Server.admin` (they have their own countdowns), `compromise` is not driven -/
 def ftpcRequest (f : SvcState) : SvcReq → Option SvcState
   | .stop => if f = .running then some .stopped else none
   | .start => if f = .stopped then some .running else none
@@ -390,15 +490,93 @@ def Server.admin (s : Server) : Admin → Server × Option Bool
     if !s.node.isOn then (s, none)
     else match s.ftpc with
       | none => (s, none)
-      | some f => match ftpcRequest f r with
-        | some f' => ({ s with ftpc := some f' }, some true)
-        | none => (s, none)
+      | some f =>
+        match r with
+        | .restart =>
+          if f = .running then ({ s with ftpc := some .restarting, ftpcRestartCd := ftpcRestartDur }, some true) else (s, none)
+        | .fix =>
+          -- validator RUNNING, then `Software.fix`: accepted from GOOD (→ FIXING with the countdown), refused while FIXING
+          if f = .running then
+            match s.ftpcFix with
+            | none => ({ s with ftpcFix := some ftpcFixDur }, some true)
+            | some _ => (s, some false)
+          else (s, none)
+        | .scan => if f = .running then (s, some true) else (s, none)
+        | r => match ftpcRequest f r with
+          | some f' => ({ s with ftpc := some f' }, some true)
+          | none => (s, none)
   | .ftpcUninstall => if s.ftpc.isSome then ({ s with ftpc := none, ftpConn := false }, some true) else (s, none)
+  | .ftpcInstall cfg =>
+    -- installed and no configuration given: refused; otherwise a NEW instance (replacing the old one), started if the
+    -- node is ON, without connections, appended to `node.services`
+    if s.ftpc.isSome && !cfg then (s, none)
+    else ({ s with ftpc := some (if s.node.isOn then .running else .stopped), ftpConn := false, ftpcRestartCd := 0,
+                   ftpcFix := none, ftpcFirst := false }, some true)
   | .svcUninstall =>
-    if s.installed then ({ s with installed := false, portMine := if s.portMine then false else s.portMine }, some true) else (s, none)
+    -- the port-map entry is removed only when it is the service's own
+    if s.installed then ({ s with installed := false, portMine := false }, some true) else (s, none)
   | .bkcfg on => ({ s with backupConfigured := on }, some true)
-  | .coInstall => if s.coClient then (s, none) else ({ s with coClient := true, portMine := false }, some true)
-  | .coUninstall => if s.coClient then ({ s with coClient := false, portMine := false }, some true) else (s, none)
+  | .coInstall =>
+    if s.coClient then (s, none) else ({ s with coClient := true, portMine := false, portCo := true, coApp := .closed }, some true)
+  | .coUninstall => if s.coClient then ({ s with coClient := false, portCo := false, coApp := .closed }, some true) else (s, none)
+  | .coRun =>
+    if s.coClient then ({ s with coApp := if s.node.isOn && s.coApp == .closed then .running else s.coApp }, some true) else (s, none)
+
+/-- outcome of `software_manager.install(DatabaseService[, config])` -/
+inductive InstallOut | refused | raised | done
+deriving DecidableEq, Repr
+
+/-- `software_manager.install(DatabaseService, config)` at run time. `cfg = none`: no configuration (refused while the
+service is installed); `some (pw, bk)`: `db_password = pw`, `backup_server_ip` given iff `bk`.  The constructor creates
+`database/database.db` and RAISES when a live file of that name exists (nothing has changed at that point: the old
+instance is uninstalled only after the new one was constructed).  Otherwise the new instance replaces the old one: empty
+connection table, default `max_sessions` / durations, health GOOD, started iff the node is ON, a fresh GOOD database
+file, its own uuid (so no backup of its own on the backup host: `step` clears `bk.stored`), the (5432, tcp) entry of the
+port map (taken over even from a co-located client), and an FTP client installed by `DatabaseService.install()` if there
+is none. -/
+def Server.reinstall (s : Server) (cfg : Option (Option Nat × Bool)) : Server × InstallOut :=
+  if s.installed && cfg.isNone then (s, .refused)
+  else if s.file.isSome then (s, .raised)
+  else
+    let on := s.node.isOn
+    let st : SvcState := if on then .running else .stopped
+    let s1 : Server :=
+      { s with installed := true, op := st, health := .good, restartCd := 0, restartDur := 5, fixCd := 0, fixDur := 2,
+               password := match cfg with | some c => c.1 | none => none,
+               backupConfigured := match cfg with | some c => c.2 | none => false,
+               conns := [], maxSessions := 100, file := some .good, folder := true, portMine := true, portCo := false,
+               ftpcFirst := true }
+    match s.ftpc with
+    | some _ => (s1, .done)
+    | none => ({ s1 with ftpc := some st, ftpConn := false, ftpcRestartCd := 0, ftpcFix := none, ftpcFirst := false }, .done)
+
+/-- file-system operations on `downloads/` of the database host -/
+inductive DlOp
+  | delete                      -- `delete_file('downloads', 'database.db')`
+  | corrupt | repair            -- `File.corrupt()` / `File.repair()` on the leftover
+  | folderDelete                -- `delete_folder('downloads')`
+  | plant (h : FHealth)         -- somebody creates `downloads/database.db` (with that health)
+deriving DecidableEq, Repr
+
+/-- `none` = refused (no such file / the name exists: `create_file` raises) -/
+def Server.dl (s : Server) : DlOp → Server × Option Bool
+  | .delete =>
+    match s.downloads with
+    | some _ => ({ s with downloads := none }, some true)
+    | none => (s, some false)
+  | .corrupt =>
+    match s.downloads with
+    | some h => ({ s with downloads := some (if h = .good then .corrupt else h) }, some true)
+    | none => (s, none)
+  | .repair =>
+    match s.downloads with
+    | some h => ({ s with downloads := some (if h = .corrupt then .good else h) }, some true)
+    | none => (s, none)
+  | .folderDelete => if s.dlFolder then ({ s with downloads := none, dlFolder := false }, some true) else (s, some false)
+  | .plant h =>
+    match s.downloads with
+    | some _ => (s, none)
+    | none => ({ s with downloads := some h, dlFolder := true }, some true)
 
 /-- `File.corrupt()` on the live file (GOOD → CORRUPT only) -/
 def Server.fileCorrupt (s : Server) : Server × Bool :=
@@ -435,14 +613,32 @@ def Server.tickRestart (s : Server) : Server :=
     if s.restartCd = 0 then { s with op := .running } else { s with restartCd := s.restartCd - 1 }
   else s
 
+/-- `apply_timestep` of the FTP client on the database host: fix countdown (decrement, then test `<= 0`), restart
+countdown (test `<= 0`, then decrement) -/
+def Server.tickFtpc (s : Server) : Server :=
+  match s.ftpc with
+  | none => s
+  | some f =>
+    { s with
+      ftpcFix := match s.ftpcFix with | some n => if n ≤ 1 then none else some (n - 1) | none => none,
+      ftpc := if f = .restarting ∧ s.ftpcRestartCd = 0 then some .running else some f,
+      ftpcRestartCd := if f = .restarting ∧ s.ftpcRestartCd ≠ 0 then s.ftpcRestartCd - 1 else s.ftpcRestartCd }
+
+/-- the database service's own `apply_timestep` at time `t`: backup at timestep 1, fixing countdown (+ restore), restart
+countdown -/
+def Server.tickSvc (s : Server) (b : Backup) (t : Nat) (pathReq pathResp big sendOk : Bool) : Server × Backup :=
+  if !s.installed then (s, b) else
+  let sb : Server × Backup := if t = 1 then let x := backupDatabase s b pathReq big; (x.1, x.2.1) else (s, b)
+  ((sb.1.tickFix sb.2 pathReq pathResp sendOk).tickRestart, sb.2)
+
 /-- Server part of a tick, at time `t` (the value passed to `apply_timestep`): node countdowns; then, only while the
-node is ON: backup at timestep 1, fixing countdown (+ restore), restart countdown. -/
+node is ON, the services in the order of `node.services`: the database service and the FTP client. -/
 def serverTick (s : Server) (b : Backup) (t : Nat) (pathReq pathResp : Bool) (big : Bool := true) (sendOk : Bool := true) :
     Server × Backup :=
   let s := s.tickPower
-  if !s.node.isOn || !s.installed then (s, b) else
-  let sb : Server × Backup := if t = 1 then let x := backupDatabase s b pathReq big; (x.1, x.2.1) else (s, b)
-  ((sb.1.tickFix sb.2 pathReq pathResp sendOk).tickRestart, sb.2)
+  if !s.node.isOn then (s, b) else
+  if s.ftpcFirst then s.tickFtpc.tickSvc b t pathReq pathResp big sendOk
+  else let r := s.tickSvc b t pathReq pathResp big sendOk; (r.1.tickFtpc, r.2)
 
 def backupTick (b : Backup) : Backup :=
   let r := b.node.tick
@@ -747,6 +943,7 @@ inductive Op
   | connect (i : Nat)                       -- rig keeps the handle
   | rawQuery (i : Nat) (cid : Option Nat) (q : Sql)
   | rawDisconnect (i : Nat) (cid : Option Nat)   -- a bare disconnect payload (no client-side bookkeeping)
+  | rawJunk (i : Nat) (k : Junk)            -- a payload the dispatcher does not recognise, sent from host `i`
   | hQuery (h : Nat) (q : Sql)
   | hDisconnect (h : Nat)
   | nConnect (i : Nat) | nQuery (i : Nat) (q : Sql) | nDisconnect (i : Nat) | execute (i : Nat)
@@ -758,6 +955,9 @@ inductive Op
   | backup (big : Bool) | restore (downOk : Bool) (sendOk : Bool)   -- saturation inputs: see `backupDatabase` / `restoreBackup`
   | fileDelete | fileCorrupt | fileRepair | folderDelete
   | admin (a : Admin)
+  | dl (a : DlOp)                           -- file-system operations on `downloads/` of the database host
+  | svcInstall (cfg : Option (Option Nat × Bool))   -- `software_manager.install(DatabaseService[, config])` at run time
+  | co (k : Nat)                            -- the co-located database client: 0 `get_new_connection`, 1 `query`, 2 `execute` request
   | bkDelete                                -- delete the stored copy on the backup host
   | dm (i : Nat) (q : Sql) (scan atk : Bool) (viaRequest : Bool)
   | ransomReq (i : Nat) (q : Sql)           -- the ransomware script through its `execute` request
@@ -773,6 +973,7 @@ structure Out where
   handle : Option Nat := none
   statuses : List (Option Nat) := []
   rejected : Bool := false      -- request refused by a validator / component absent
+  raised : Bool := false        -- the real call raises (explicit outcome; nothing changed)
 deriving DecidableEq, Repr
 
 def toggle (l : List Nat) (i : Nat) (on : Bool) : List Nat :=
@@ -786,6 +987,9 @@ def step (st : State) : Op → State × Out
     else (st, { rejected := true })
   | .rawDisconnect i cid =>
     if st.clientInstalled i then let r := st.send i (.disconnect cid); (r.1, { statuses := [r.2.1] })
+    else (st, { rejected := true })
+  | .rawJunk i k =>
+    if st.clientInstalled i then let r := st.send i (.junk k); (r.1, { statuses := [r.2.1] })
     else (st, { rejected := true })
   | .hQuery h q =>
     match st.handles[h]? with
@@ -843,6 +1047,25 @@ def step (st : State) : Op → State × Out
   | .folderDelete => let r := st.srv.folderDelete; ({ st with srv := r.1 }, { res := some r.2 })
   | .admin a => let r := st.srv.admin a
     ({ st with srv := r.1 }, match r.2 with | some b => { res := some b } | none => { rejected := true })
+  | .dl a => let r := st.srv.dl a
+    ({ st with srv := r.1 }, match r.2 with | some b => { res := some b } | none => { rejected := true })
+  | .svcInstall cfg =>
+    let r := st.srv.reinstall cfg
+    match r.2 with
+    -- the new instance has a new uuid: whatever the old one stored on the backup host is not ITS backup
+    | .done => ({ st with srv := r.1, bk := { st.bk with stored := none } }, { res := some true })
+    | .refused => (st, { rejected := true })
+    | .raised => (st, { raised := true })
+  | .co k =>
+    -- a client on the database host addresses its own host. While it cannot act, or the (5432, tcp) entry is not the
+    -- service's (the payload comes back to the client itself, or is dropped), or the service does not answer, every call
+    -- simply fails.  Otherwise the service's answer is delivered to the service again (it owns the port), which answers the
+    -- answer, and so on: the real call does not return (RecursionError) - explicit outcome `raised`, the trace ends here.
+    if !st.srv.coClient then (st, { rejected := true })
+    else if k = 2 && !st.srv.node.isOn then (st, { rejected := true })
+    -- (`query` on the native connection sends nothing: that client never holds one)
+    else if k != 1 && st.srv.coApp == .running && st.srv.node.isOn && st.srv.listening && st.srv.canAct then (st, { raised := true })
+    else (st, { res := some false })
   | .bkDelete =>
     match st.bk.stored with
     | some _ => ({ st with bk := { st.bk with stored := none } }, { res := some true })
